@@ -57,28 +57,49 @@ def write_cfg(path, family, pool="S", owners=("a1e", "f"), spends=("t1", "u"), a
 
 
 def families(ctx):
-    """(name, kwargs) of the block families: `mc` are model-checked (theorems), `emit` are replayed."""
+    """(name, kwargs) of the block families: `mc` are model-checked (theorems), `emit` are replayed.
+    Family P runs every shape under four environments, Q under one (for the largest bound)."""
     full_o = ("a1e", "a1i", "a2e", "f")
     full_s = ("t1", "t2", "u", "x")
+    red = dict(owners=("a1e", "f"), spends=("t1", "u"))
     q = ctx.quick()
+    if q:
+        mc = [
+            ("D", dict(family="D", maxtx=1)),
+            ("A", dict(family="P", pool="S", maxtx=3, maxout=2, maxsp=1, **red)),
+            ("B", dict(family="P", pool="O", owners=full_o + ("m",), spends=full_s + ("m",), action=True, maxtx=1, maxout=2)),
+            ("Bs", dict(family="P", pool="S", owners=full_o + ("m",), spends=full_s + ("m",), maxtx=1, maxout=2, maxsp=2)),
+            ("X", dict(family="X", maxtx=1)),
+        ]
+        emit = [
+            ("D", dict(family="D", maxtx=1)),
+            ("S", dict(family="P", pool="S", owners=("a1e", "a1i", "f"), spends=("t1", "t2", "u"), maxtx=2, maxout=2, maxsp=1)),
+            ("Sm", dict(family="P", pool="S", owners=full_o + ("m",), spends=full_s + ("m",), maxtx=1, maxout=2, maxsp=1)),
+            ("X", dict(family="X", maxtx=1)),
+        ]
+        for p in ("O", "I"):
+            emit.append((p, dict(family="P", pool=p, owners=("a1i", "a2e", "f"), spends=("t1", "u"), action=True, maxtx=2, maxout=2)))
+            emit.append((p + "m", dict(family="P", pool=p, owners=full_o + ("m",), spends=full_s + ("m",), action=True, maxtx=1, maxout=2)))
+        return mc, emit
     mc = [
-        ("D", dict(family="D", maxtx=1 if q else 2)),
-        # the bound of the property text, over the reduced alphabet {wallet, foreign} x {tracked, untracked}
-        ("A", dict(family="P", pool="S", owners=("a1e", "f"), spends=("t1", "u"), maxtx=3, maxout=2 if q else 3, maxsp=1 if q else 2)),
-        # full alphabet, smaller bound
-        ("B", dict(family="P", pool="O", owners=full_o + ("m",), spends=full_s + ("m",), action=True, maxtx=1 if q else 2, maxout=2)),
-        ("Bs", dict(family="P", pool="S", owners=full_o + ("m",), spends=full_s + ("m",), maxtx=1 if q else 2, maxout=2, maxsp=2 if q else 1)),
-        ("X", dict(family="X", maxtx=1 if q else 2)),
+        ("D", dict(family="D", maxtx=2)),
+        # the bound of the property text (<=3 txs x <=3 outputs x <=2 spends), reduced alphabet, one environment
+        ("A", dict(family="Q", pool="S", maxtx=3, maxout=3, maxsp=2, **red)),
+        ("A4", dict(family="P", pool="I", maxtx=3, maxout=2, maxsp=2, **red)),
+        ("B", dict(family="Q", pool="O", owners=full_o + ("m",), spends=full_s + ("m",), action=True, maxtx=2, maxout=2)),
+        ("Bs", dict(family="P", pool="S", owners=full_o + ("m",), spends=full_s + ("m",), maxtx=2, maxout=2, maxsp=1)),
+        ("X", dict(family="X", maxtx=2)),
     ]
     emit = [
-        ("D", dict(family="D", maxtx=1 if q else 2)),
-        ("S", dict(family="P", pool="S", owners=("a1e", "a1i", "f") if q else full_o, spends=("t1", "t2", "u"), maxtx=2, maxout=2, maxsp=1 if q else 2)),
-        ("Sm", dict(family="P", pool="S", owners=full_o + ("m",), spends=full_s + ("m",), maxtx=1, maxout=2, maxsp=1)),
-        ("X", dict(family="X", maxtx=1 if q else 2)),
+        ("D", dict(family="D", maxtx=2)),
+        ("S", dict(family="P", pool="S", owners=full_o, spends=("t1", "t2", "u"), maxtx=2, maxout=2, maxsp=1)),
+        ("S3", dict(family="P", pool="S", maxtx=3, maxout=2, maxsp=1, **red)),
+        ("Sm", dict(family="P", pool="S", owners=full_o + ("m",), spends=full_s + ("m",), maxtx=1, maxout=2, maxsp=2)),
+        ("X", dict(family="X", maxtx=2)),
     ]
     for p in ("O", "I"):
-        emit.append((p, dict(family="P", pool=p, owners=("a1i", "a2e", "f") if q else full_o, spends=("t1", "u") if q else ("t1", "t2", "u"),
-                             action=True, maxtx=2, maxout=2)))
+        emit.append((p, dict(family="P", pool=p, owners=full_o, spends=("t1", "t2", "u"), action=True, maxtx=2, maxout=2)))
+        emit.append((p + "3", dict(family="Q", pool=p, owners=("a1i", "f"), spends=("t1", "u"), action=True, maxtx=3, maxout=2)))
         emit.append((p + "m", dict(family="P", pool=p, owners=full_o + ("m",), spends=full_s + ("m",), action=True, maxtx=1, maxout=2)))
     return mc, emit
 
@@ -591,6 +612,56 @@ def nontrivial(c):
     return (not e["ok"]) or bool(e.get("recv")) or bool(e.get("spent"))
 
 
+class BlockTally:
+    """Accumulates what the scan_block replay covered, one batch of cases at a time."""
+
+    def __init__(self):
+        self.n = 0
+        self.fam = {}
+        self.classes = {}
+        self.changes = 0
+        self.internal = 0
+        self.hdr = set()
+        self.distinct = set()
+        self.stats = {}
+        self.excused = {}
+        self.ex_ok = None
+        self.ex_bad = None
+
+    def add(self, name, cases, res, excused):
+        self.n += len(cases)
+        for c in cases:
+            self.fam[c.get("fam", name)] = self.fam.get(c.get("fam", name), 0) + 1
+            e = c["exp"]
+            k = "accepted" if e["ok"] else e["err"]
+            self.classes[k] = self.classes.get(k, 0) + 1
+            if e["ok"]:
+                self.changes += any(r["chg"] for r in e["recv"])
+                self.internal += any(r["sc"] == "int" for r in e["recv"])
+                if self.ex_ok is None and len(e["recv"]) >= 2 and e["spent"]:
+                    self.ex_ok = c
+            elif self.ex_bad is None and len(e["all"]) >= 2:
+                self.ex_bad = c
+            if c["block"].get("bad", "none") != "none":
+                self.hdr.add(c["block"]["bad"])
+            if nontrivial(c):
+                self.distinct.add(hashlib.sha256(json.dumps([c["prior"], c["block"], c["keys"]], sort_keys=True).encode()).digest()[:12])
+        for k, v in (res.get("stats") or {}).items():
+            self.stats[k] = self.stats.get(k, 0) + v
+        for k, v in excused.items():
+            self.excused[k] = self.excused.get(k, 0) + v
+
+
+def replay_blocks(ctx, bindir, tally, name, cases):
+    t0 = time.time()
+    res = run_block_mode(ctx, bindir, cases, name)
+    lib.log("[replay] scan_block %s: %d cases in %.1fs, %s" % (name, len(cases), time.time() - t0, res.get("stats")))
+    if res["cases"] != len(cases) and not any(m.get("kind") == "setup" for m in res["mismatches"]):
+        raise lib.ToolError("block replay consumed %d of %d cases" % (res["cases"], len(cases)))
+    judge_block(ctx, res)
+    tally.add(name, cases, res, judge_header_panics(ctx, res, "block"))
+
+
 def run(ctx):
     bindir = lib.cargo_build("h_wallet", ["c05_replay"])
     d = lib.stage_specs(ctx, AREA)
@@ -609,28 +680,23 @@ def run(ctx):
     # (1) the specification alone (theorems, BatchRunner), next to the emission runs below
     mc_future = pool.submit(model_check, ctx, d)
 
-    # (2a) blocks: TLC-enumerated families + TLC-evaluated seeded random big shapes
+    # (2a) blocks: TLC-enumerated families, then TLC-evaluated seeded random big shapes
+    tally = BlockTally()
     _, emit = families(ctx)
-    cases = []
-    fam_counts = {}
+    batch, names = [], []
     for name, kw in emit:
-        cs = emit_family(ctx, d, name, kw)
-        fam_counts[name] = len(cs)
-        cases += cs
+        batch += emit_family(ctx, d, name, kw)
+        names.append(name)
+        if len(batch) >= 60000 or name == emit[-1][0]:
+            replay_blocks(ctx, bindir, tally, "+".join(names), batch)
+            batch, names = [], []
     rnd = [rand_block_case(rng) for _ in range(1500 if ctx.quick() else 20000)]
     rnd += header_block_cases(rng, 4 if ctx.quick() else 40)
     tlc_eval(ctx, d, rnd, "random")
     for c in rnd:
         c["fam"] = "random"
-    fam_counts["random"] = len(rnd)
-    cases += rnd
-    t0 = time.time()
-    res = run_block_mode(ctx, bindir, cases, "blocks")
-    lib.log("[replay] scan_block: %d cases in %.1fs, stats %s" % (len(cases), time.time() - t0, res.get("stats")))
-    if res["cases"] != len(cases) and not any(m.get("kind") == "setup" for m in res["mismatches"]):
-        raise lib.ToolError("block replay consumed %d of %d cases" % (res["cases"], len(cases)))
-    judge_block(ctx, res)
-    excused = {"scan_block": judge_header_panics(ctx, res, "block")}
+    replay_blocks(ctx, bindir, tally, "random", rnd)
+    excused = {"scan_block": tally.excused}
     mc_future.result()
 
     wallet_stats = {}
@@ -643,55 +709,53 @@ def run(ctx):
         if not wr["mismatches"] and wr["scenarios"] != len(scenarios):
             raise lib.ToolError("wallet replay (threads=%d) ran %s of %d scenarios" % (n, wr["scenarios"], len(scenarios)))
 
-    # vacuity guards: every error class and accepted blocks with receipts / spends / change were replayed
-    classes = {}
-    for c in cases:
-        e = c["exp"]
-        k = "accepted" if e["ok"] else e["err"]
-        classes[k] = classes.get(k, 0) + 1
-    need = ["accepted", "BlockHeightDiscontinuity", "PrevHashMismatch", "TreeSizeUnknown", "TreeSizeInvalid", "TreeSizeMismatch", "EncodingInvalid"]
-    missing = [k for k in need if not classes.get(k)]
-    changes = sum(1 for c in cases if c["exp"]["ok"] and any(r["chg"] for r in c["exp"]["recv"]))
-    internal = sum(1 for c in cases if c["exp"]["ok"] and any(r["sc"] == "int" for r in c["exp"]["recv"]))
+    # vacuity guards: every error class, accepted blocks with receipts / spends / change / internal scope,
+    # every header-level malformation and the padded ranges were replayed
+    need = ["accepted", "BlockHeightDiscontinuity", "PrevHashMismatch", "TreeSizeUnknown", "TreeSizeInvalid", "TreeSizeMismatch",
+            "EncodingInvalid", "MalformedHeader"]
+    missing = [k for k in need if not tally.classes.get(k)]
     wkinds = {}
     for s in scenarios:
         wkinds[s["what"]] = wkinds.get(s["what"], 0) + 1
-    hdr_missing = [k for k in HEADER_KINDS if not any(c["block"].get("bad") == k for c in cases) or not wkinds.get("corrupt:hdr:" + k)]
-    if missing or hdr_missing or not changes or not internal or not wkinds.get("padded") or not wkinds.get("valid"):
-        raise lib.ToolError("vacuity: classes %s change=%d internal=%d wallet kinds %s" % (classes, changes, internal, wkinds))
+    hdr_missing = [k for k in HEADER_KINDS if k not in tally.hdr or not wkinds.get("corrupt:hdr:" + k)]
+    if missing or hdr_missing or not tally.changes or not tally.internal or not wkinds.get("padded") or not wkinds.get("valid") \
+            or tally.ex_ok is None or tally.ex_bad is None:
+        raise lib.ToolError("vacuity: classes %s change=%d internal=%d header kinds %s wallet kinds %s"
+                            % (tally.classes, tally.changes, tally.internal, sorted(tally.hdr), wkinds))
 
-    ctx.traces = len(cases) + len(scenarios) * len(THREADS)
-    distinct = len({hashlib.sha256(json.dumps([c["prior"], c["block"], c["keys"]], sort_keys=True).encode()).hexdigest()
-                    for c in cases if nontrivial(c)})
-    ex = next(c for c in cases if c["exp"]["ok"] and len(c["exp"]["recv"]) >= 2 and c["exp"]["spent"])
+    ctx.traces = tally.n + len(scenarios) * len(THREADS)
+    ex = tally.ex_ok
     ctx.add_sample({"mode": "scan_block", "prior": ex["prior"], "block_txs": ex["block"]["txs"],
                     "predicted": {k: ex["exp"][k] for k in ("recv", "spent", "final", "wtx")}})
-    ex = next(c for c in cases if not c["exp"]["ok"] and len(c["exp"]["all"]) >= 2)
-    ctx.add_sample({"mode": "scan_block", "prior": ex["prior"], "block": {k: ex["block"][k] for k in ("h", "prev", "meta", "act")},
+    ex = tally.ex_bad
+    ctx.add_sample({"mode": "scan_block", "prior": ex["prior"], "block": {k: ex["block"][k] for k in ("h", "prev", "meta", "act", "bad")},
                     "predicted": ex["exp"]})
     ex = next(s for s in scenarios if s["what"] == "padded")
     ctx.add_sample({"mode": "scan_cached_blocks", "what": ex["what"], "note": ex["note"], "threads": THREADS,
                     "predicted_receipts": [r for b in ex["exp"]["res"] for r in b["recv"]][:6]})
-    ctx.extra["block_replay"] = {"families": fam_counts, "expected_classes": classes, "with_change": changes,
-                                 "with_internal_scope": internal, "harness_stats": res.get("stats", {})}
+    ctx.extra["block_replay"] = {"families": tally.fam, "expected_classes": tally.classes, "with_change": tally.changes,
+                                 "with_internal_scope": tally.internal, "harness_stats": tally.stats}
     ctx.extra["header_panics_excused_as_known_findings"] = excused
     ctx.extra["wallet_replay"] = {"scenario_kinds": wkinds, "per_thread_count": wallet_stats}
+    q = ctx.quick()
     lib.mc_evidence(
         ctx,
         rule="every abstract block of the TLC-enumerated families (continuity/metadata lattice; per-pool shapes; cross-pool "
              "menu) and of the seeded big-shape sample is materialised with real note encryption and scanned by scan_block; "
              "every wallet range is scanned by scan_cached_blocks under each thread count; distinct_nontrivial = distinct "
              "(prior, block, keys) whose prediction is a rejection or holds a receipt or a spend",
-        evaluations=ctx.traces, distinct_nontrivial=distinct,
+        evaluations=ctx.traces, distinct_nontrivial=len(tally.distinct),
         extra={"exhaustive": True,
                "bounds": {"theorems": "one pool, <=3 txs x <=%d outputs x <=%d spends over {wallet, foreign} x {tracked, untracked}; "
-                                      "full alphabet <=2 txs x <=2 actions; cross-pool menu; continuity lattice"
-                                      % ((2, 1) if ctx.quick() else (3, 2)),
+                                      "full alphabet <=%d txs x <=2 actions; cross-pool menu <=%d txs; continuity lattice"
+                                      % ((2, 1, 1, 1) if q else (3, 2, 2, 2)),
+                          "replayed_families": "see block_replay.families; random sample: 3 pools x <=3 txs x <=3 outputs x <=2 spends",
                           "thread_counts": THREADS, "batch_threshold": 100}},
         assumptions=["note encryption / decryption itself (sapling-crypto, orchard, zcash_note_encryption) is the trusted base",
                      "task schedules of the batched decryptor are exercised by a thread-count sweep (1, 2, 4, 16 pool threads), "
                      "not enumerated: hook H1 is not installed; BatchRunner.tla covers the interleavings in the model only",
-                     "error classes: the class reported must be one of the block's defects; which one of several is informational",
+                     "error classes: the class reported must be one of the block's defects (any class for a header-level "
+                     "malformation); which one of several defects is reported is informational",
                      "the async sync-decryptor path is not in the baseline build and is not exercised"])
 
 
